@@ -1,6 +1,78 @@
-import Driver.Common
-namespace Rtp.Kinds.Pktz
-open Rtp Rtp.Proto
+/-
+  Driver/Kinds/Pktz.lean — case kinds of group `pktz`: C07 (sequencer) and C06 (packetizer).
 
-def handlers : List (String × Handler) := []
+  c07.run    <f s | r r0> <ops: string of n/r, `-` = none>  =>  <count> <result>*
+  c07.hist   <start> <goroutines>  =>  <count> (<g> <n|r> <before> <after> <result>)*
+  c07.facts  sequencer.go  =>  <6 bools> <maxInitialRandomSequenceNumber>
+-/
+import Driver.Common
+import Rtp.Model.Sequencer
+import Rtp.Pred.C07
+namespace Rtp.Kinds.Pktz
+open Rtp Rtp.Proto Rtp.Model Rtp.Spec.Counter
+
+/-- tail-recursive `Rd.rep` (histories of 10^5 calls must not use the C stack) -/
+def repTR {α} (r : Rd α) (n : Nat) : Rd (List α) := fun s => go n s #[]
+where
+  go : Nat → List String → Array α → Option (List α × List String)
+    | 0, s, acc => some (acc.toList, s)
+    | n + 1, s, acc => match r s with
+      | none => none
+      | some (a, s') => go n s' (acc.push a)
+
+def listTR {α} (r : Rd α) : Rd (List α) := do let n ← Rd.nat; repTR r n
+
+def rdOp : Rd Op := do
+  let t ← Rd.tok
+  match t with | "n" => pure .next | "r" => pure .roc | _ => Rd.fail
+
+/-- a program as one token: a string over {n, r}; `-` is the empty program -/
+def rdOps : Rd (List Op) := do
+  let t ← Rd.tok
+  if t == "-" then pure [] else
+  let l := t.toList
+  if l.all (fun c => c == 'n' || c == 'r') then pure (l.map fun c => if c == 'n' then Op.next else Op.roc)
+  else Rd.fail
+
+def rdStart : Rd Pred.C07.Start := do
+  let t ← Rd.tok
+  match t with
+  | "f" => do let s ← Rd.u16; pure (.fixed s)
+  | "r" => do let r ← Rd.nat; pure (.random r)
+  | _ => Rd.fail
+
+def c07run : Handler :=
+  mkHandler (do let s ← rdStart; let o ← rdOps; pure (s, o)) (listTR Rd.nat)
+    (fun (s, ops) => s.state.run ops)
+    (fun (s, ops) o => Pred.C07.runOk s ops o)
+    (fun (s, _) => s.wf)
+
+def rdCall : Rd Pred.C07.Call := do
+  let g ← Rd.nat; let op ← rdOp; let b ← Rd.nat; let a ← Rd.nat; let r ← Rd.nat
+  pure { g := g, op := op, before := b, after := a, res := r }
+
+/-- no model observation to compare with (the schedule is not an input): `corr` is vacuous, the
+    verdict is the linearizability check of what the real code did -/
+def c07hist : Handler := fun inp obs =>
+  match (do let s ← Rd.u16; let n ← Rd.nat; Rd.done; pure (s, n) : Rd (UInt16 × Nat)) inp,
+        (do let h ← listTR rdCall; Rd.done; pure h : Rd (List Pred.C07.Call)) obs with
+  | some ((s, _), _), some (h, _) =>
+    some { corr := true, pred := Pred.C07.linearizable (SeqState.newFixed s) h }
+  | _, _ => none
+
+def rdFacts : Rd Pred.C07.Facts := do
+  let a ← Rd.bool; let b ← Rd.bool; let c ← Rd.bool; let d ← Rd.bool; let e ← Rd.bool; let f ← Rd.bool
+  let m ← Rd.nat
+  pure { nextLocksFirst := a, nextDefersUnlock := b, rocLocksFirst := c, rocDefersUnlock := d,
+         noOtherLockOps := e, fieldsPrivate := f, maxInitialRandom := m }
+
+def c07facts : Handler :=
+  mkHandler Rd.tok rdFacts
+    (fun _ => { nextLocksFirst := true, nextDefersUnlock := true, rocLocksFirst := true,
+                rocDefersUnlock := true, noOtherLockOps := true, fieldsPrivate := true,
+                maxInitialRandom := SeqState.maxInitialRandom })
+    (fun _ o => Pred.C07.factsOk o)
+
+def handlers : List (String × Handler) :=
+  [("c07.run", c07run), ("c07.hist", c07hist), ("c07.facts", c07facts)]
 end Rtp.Kinds.Pktz
